@@ -79,6 +79,40 @@ Ceil_(p, key, asis) ==
           ELSE IF LinkAt(pe.n, i) = <<>> THEN CeilUp(q)
           ELSE Ceil_(Append(q, [n |-> LinkAt(pe.n, i)[1], i |-> 0]), key, asis)
 
+(* ---------------- navigation under a failing Load (C12: a failed call can be made again) ----------------
+   f = the number of loads that still succeed before one fails (0: the next load fails).  Every node below the cursor's
+   path is taken to be persisted (each step down is a Load), the worst case.  `restore` = TRUE is the repaired behaviour
+   (fix 6587a03: Forward / Backward put the path back when their descent fails); FALSE is the behaviour before it, where the
+   error is returned with the cursor left inside the neighbouring subtree.                                           *)
+RECURSIVE MinFromF(_, _, _)
+MinFromF(p, nd, f) == IF NLinks(nd) = 0 \/ LinkAt(nd, 0) = <<>> THEN OK(p)
+                      ELSE IF f = 0 THEN Bad(p, "err")
+                      ELSE LET ch == LinkAt(nd, 0)[1] IN MinFromF(Append(p, [n |-> ch, i |-> 0]), ch, f - 1)
+RECURSIVE MaxFromF(_, _, _)
+MaxFromF(p, nd, f) ==
+  IF NLinks(nd) = 0 \/ LinkAt(nd, NLinks(nd)-1) = <<>>
+  THEN OK(Append(p, [n |-> nd, i |-> IF NKeys(nd) = 0 THEN 0 ELSE NKeys(nd) - 1]))
+  ELSE IF f = 0 THEN Bad(Append(p, [n |-> nd, i |-> NLinks(nd) - 1]), "err")
+  ELSE MaxFromF(Append(p, [n |-> nd, i |-> NLinks(nd) - 1]), LinkAt(nd, NLinks(nd)-1)[1], f - 1)
+
+ForwardF(p, f, restore) ==
+  IF p = <<>> THEN OK(p)
+  ELSE LET pe == Last(p) IN
+       IF pe.i + 1 < NLinks(pe.n) /\ LinkAt(pe.n, pe.i + 1) # <<>>
+       THEN IF f = 0 THEN Bad(p, "err")         \* the load of the child itself: nothing has moved yet
+            ELSE LET ch == LinkAt(pe.n, pe.i+1)[1]
+                     r == MinFromF(Append(SetLastI(p, pe.i + 1), [n |-> ch, i |-> 0]), ch, f - 1)
+                 IN IF r.bad = "err" /\ restore THEN Bad(p, "err") ELSE r
+       ELSE Forward_(p)                          \* no load involved
+BackwardF(p, f, restore) ==
+  IF p = <<>> THEN OK(p)
+  ELSE LET pe == Last(p) IN
+       IF pe.i >= 0 /\ pe.i < NLinks(pe.n) /\ LinkAt(pe.n, pe.i) # <<>>
+       THEN IF f = 0 THEN Bad(p, "err")
+            ELSE LET r == MaxFromF(p, LinkAt(pe.n, pe.i)[1], f - 1)
+                 IN IF r.bad = "err" /\ restore THEN Bad(p, "err") ELSE r
+       ELSE Backward_(p, FALSE)
+
 (* ---------------- SeekIter ---------------- *)
 \* everything a node yields from its idx-th key on (lib.go seekIter): Key[idx], then Link[j], Key[j] for j > idx
 NodeSeek(nd, idx) ==
